@@ -136,6 +136,9 @@ fn knobs(run: &mut Run, seed: u64) {
     // K5: order in which the generators are asserted / split point for add_set
     run.set("split", f.below(4) as i64);
     run.set("probes", f.chance(1, 3) as i64);
+    // (a') a slot of the leaf becomes redundant at some point of the history (k <= 4): the
+    // permuted copies are then compared with M_cc ("restricted to non-redundant slots")
+    run.set("redundant_at", if f.chance(1, 3) { 1 + f.below(4) as i64 } else { 0 });
 }
 
 fn enum_sizes(tier: Tier) -> Vec<(usize, usize)> {
@@ -287,6 +290,69 @@ impl Check for GroupCheck {
             }
             let p = s.eg.progress();
             out.states.push(crate::rng::mix(m.len() as u64 ^ (p.sum_of_symmetries as u64) << 16));
+        }
+
+        // (a') redundancy on the leaf: old handles, every permutation, oracle M_cc
+        if run.get("redundant_at") > 0 && k >= 2 && k <= 4 {
+            use crate::oracle::cc::Cc;
+            let mut s2: Sess<LS, ()> = Sess::new(EGraph::new(()), run.get("naming") as u32);
+            let mut cc = Cc::new(3 * k + 1);
+            let small = Tm::leaf(&format!("p{}", k - 1), (0..(k - 1) as S).collect());
+            let at = (run.get("redundant_at") as usize - 1).min(gens.len());
+            let r0 = catch_op(|| s2.add_term(&leaf, false));
+            let Ok(h0) = r0 else {
+                out.discarded = Some("panic".into());
+                return out;
+            };
+            cc.track(&leaf);
+            let mut step = 0;
+            for gi in 0..=gens.len() {
+                if gi == at {
+                    if catch_op(|| s2.union_terms(&leaf, &small, true, false)).is_err() {
+                        out.discarded = Some("panic".into());
+                        return out;
+                    }
+                    cc.assert_eq(&leaf, &small);
+                    step += 1;
+                }
+                if gi < gens.len() {
+                    let permuted = Tm::leaf(&format!("p{k}"), gens[gi].iter().map(|x| *x as S).collect());
+                    if catch_op(|| s2.union_terms(&leaf, &permuted, gi % 2 == 1, false)).is_err() {
+                        out.discarded = Some("panic".into());
+                        return out;
+                    }
+                    cc.assert_eq(&leaf, &permuted);
+                    step += 1;
+                }
+                for q in &queries {
+                    let qt = Tm::leaf(&format!("p{k}"), q.iter().map(|x| *x as S).collect());
+                    cc.track(&qt);
+                }
+                cc.close();
+                for q in &queries {
+                    let rho: BTreeMap<S, S> = (0..k).map(|i| (i as S, q[i] as S)).collect();
+                    let qt = Tm::leaf(&format!("p{k}"), q.iter().map(|x| *x as S).collect());
+                    // the handle obtained before anything happened, and its permuted copy
+                    let hq = h0.apply_slotmap_partial(&s2.nm.slotmap(&rho));
+                    let got = match catch_op(|| s2.eg.eq(&h0, &hq)) {
+                        Ok(b) => b,
+                        Err(_) => {
+                            out.discarded = Some("panic_in_query".into());
+                            return out;
+                        }
+                    };
+                    let want = cc.equal(&leaf, &qt);
+                    out.bump("redundancy_path_queries");
+                    if got != want {
+                        out.violations.push(viol(
+                            if got { "eq_outside_group" } else { "eq_misses_group_element" },
+                            format!("leaf p{k} with generators {:?} and p{k}(0..) = p{}(0..) asserted at step {at}: after {step} unions eq(old handle, {q:?}.old handle) = {got}, M_cc says {want}", &gens[..gi.min(gens.len())], k - 1),
+                            gi,
+                        ));
+                        return out;
+                    }
+                }
+            }
         }
 
         // (b) direct path (guard-on builds only)
